@@ -547,12 +547,14 @@ def l_c12(ctx, case, rs, k):
 
 # ------------------------------------------------------------------------------------------------- C13
 def l_c13(ctx, case, rs, k):
-    shape, r = [([300, 20, 20], 4), ([40, 40, 40], 8), ([64, 64, 5], 4), ([2] * 12, 16), ([33, 9, 33], 20), ([8, 9, 10], 3)][k % 6]
+    shape, r = [([300, 20, 20], 4), ([40, 40, 40], 8), ([20, 64, 5], 8), ([2] * 12, 16), ([33, 40, 33], 20), ([8, 9, 10], 3)][k % 6]
     N = len(shape)
     t = rand_tt(rs, shape, r, fac_at=(N - 1,) if k % 4 == 2 else ())
     x = D(t)
     ctx.case(("large", "C13", tuple(shape), r), True, {"op": "left/right_orthogonalize and orthogonalize on tall unfoldings / high ranks", "shape": shape, "rank": r})
     mu = int(rs.integers(0, N - 1))
+    if k % 2 == 0:      # the tallest left unfolding (rows = left rank x spatial size of the core)
+        mu = int(np.argmax([t.cores[n].shape[0] * t.cores[n].shape[1] for n in range(N - 1)]))
     u = t.clone()
     old = [c.clone() for c in u.cores]
     oldU = [None if U is None else U.clone() for U in u.Us]
